@@ -1,4 +1,5 @@
 import Litestream.Lemmas.V3Name
+import Litestream.Gen.Names
 /-! C19 — the naming and listing layer under the legacy restore (`v3.go` Format…/Parse…FilenameV3,
 file client `SnapshotsV3` / `WALSegmentsV3`).  `Props/C19.lean` takes the listing "sorted by index
 then offset, one entry per segment" as given; these theorems discharge that for the file client:
@@ -156,6 +157,30 @@ theorem list_snaps_sorted (names : List (List Char)) : (listSnaps names).Pairwis
 theorem list_snaps_mem (names : List (List Char)) (i : Nat) :
     i ∈ listSnaps names ↔ ∃ n ∈ names, parseSnap n = some i := by
   simp [listSnaps, (isort_perm _ _).mem_iff, List.mem_filterMap]
+
+/-! ### (T) the shapes the model was written against, regenerated from v3.go and the file client -/
+
+/-- The regular expressions, format strings and integer ranges of v3.go are the ones `parseSnap`,
+`parseSeg`, `isGenID`, `fmtSnap`, `fmtSeg` model (8 hex digits; 8–16 for the offset; index parsed with
+bit size 32 in segment names and 64 in snapshot names, offset with 64, all signed). -/
+theorem gen_v3_name_shapes :
+    Gen.snapshotRegexV3 = "^([0-9a-f]{8})\\.snapshot\\.lz4$" ∧
+    Gen.walSegmentRegexV3 = "^([0-9a-f]{8})_([0-9a-f]{8,16})\\.wal\\.lz4$" ∧
+    Gen.generationRegexV3 = "^[0-9a-f]{16}$" ∧
+    Gen.fmtFormatSnapshotFilenameV3 = "%08x.snapshot.lz4|1" ∧
+    Gen.fmtFormatWALSegmentFilenameV3 = "%08x_%08x.wal.lz4|2" ∧
+    Gen.intsParseSnapshotFilenameV3 = [(16, 64, true)] ∧ Gen.regexParseSnapshotFilenameV3 = "snapshotRegexV3;" ∧
+    Gen.intsParseWALSegmentFilenameV3 = [(16, 32, true), (16, 64, true)] ∧
+    Gen.regexParseWALSegmentFilenameV3 = "walSegmentRegexV3;" ∧
+    Gen.intsIsGenerationIDV3 = [] ∧ Gen.regexIsGenerationIDV3 = "generationRegexV3;" := by decide
+
+/-- The file client's legacy listings skip exactly directories and unparsable names, parse with the
+functions above and sort by index (then offset) — what `listSnaps` / `listSegs` model. -/
+theorem gen_v3_listing_shapes :
+    Gen.skipsSnapshotsV3 = ["entry.IsDir()", "err != nil"] ∧ Gen.parseSnapshotsV3 = "litestream.ParseSnapshotFilenameV3;" ∧
+    Gen.sortSnapshotsV3 = "a.Index - b.Index" ∧
+    Gen.skipsWALSegmentsV3 = ["entry.IsDir()", "err != nil"] ∧ Gen.parseWALSegmentsV3 = "litestream.ParseWALSegmentFilenameV3;" ∧
+    Gen.sortWALSegmentsV3 = "a.Index - b.Index; int(a.Offset - b.Offset)" := by decide
 
 /-- Non-vacuity: a directory in reverse order with a temp file and an upper-case name. -/
 example : listSegs ["00000006_00001038.wal.lz4".toList, "00000006_00000000.wal.lz4".toList, "x.tmp".toList,
